@@ -28,16 +28,45 @@ KR = "naunet/reactions/kromereaction.py"
 PURE_JOIN_OK = {"expression": '" "', "multiply": '""', "func": '""', "variable": '""', "atom": '""'}
 
 
+def _const_str(node, attrs, depth=0):
+    """Static value of a class-level string expression: literals, `+`, f-strings / `sep.join([..])` of such, and names of other
+    class-level strings (nothing of the analysed code is run).  None when the expression is anything else."""
+    if node is None or depth > 200:
+        return None
+    if isinstance(node, ast.Constant):
+        return node.value if isinstance(node.value, str) else None
+    if isinstance(node, ast.Name):
+        return _const_str(attrs.get(node.id), attrs, depth + 1)
+    if isinstance(node, ast.BinOp) and isinstance(node.op, ast.Add):
+        a, b = _const_str(node.left, attrs, depth + 1), _const_str(node.right, attrs, depth + 1)
+        return None if a is None or b is None else a + b
+    if isinstance(node, ast.JoinedStr):
+        parts = [_const_str(v.value, attrs, depth + 1) if isinstance(v, ast.FormattedValue) and v.format_spec is None and v.conversion == -1 else
+                 _const_str(v, attrs, depth + 1) for v in node.values]
+        return None if any(p is None for p in parts) else "".join(parts)
+    if isinstance(node, ast.Call) and isinstance(node.func, ast.Attribute) and node.func.attr == "join" and len(node.args) == 1 and not node.keywords \
+            and isinstance(node.args[0], (ast.List, ast.Tuple)):
+        sep = _const_str(node.func.value, attrs, depth + 1)
+        parts = [_const_str(e, attrs, depth + 1) for e in node.args[0].elts]
+        return None if sep is None or any(p is None for p in parts) else sep.join(parts)
+    return None
+
+
 def _grammars(ctx, pkg):
+    """{"fgrammar": Fortran grammar text, "cgrammar": C grammar text}: by role, the values of the class-level `grammar` table under
+    the keys "fortran" / "c" (the table ExpressionConverter.__init__ reads); the text may be assembled from shared fragments."""
     ci = pkg.cls("ExpressionConverter")
     ctx.saw(CF, "ExpressionConverter")
     out = {}
-    for name in ("fgrammar", "cgrammar"):
-        node = ci.attrs.get(name)
-        try:
-            out[name] = ast.literal_eval(node)
-        except Exception:
-            out[name] = None
+    table = ci.attrs.get("grammar")
+    by_lang = {}
+    if isinstance(table, ast.Dict):
+        for k, v in zip(table.keys, table.values):
+            if isinstance(k, ast.Constant) and isinstance(k.value, str):
+                by_lang[k.value.lower()] = v
+    for name, lang in (("fgrammar", "fortran"), ("cgrammar", "c")):
+        node = by_lang.get(lang, ci.attrs.get(name))
+        out[name] = _const_str(node, ci.attrs)
     return ci, out
 
 
@@ -76,6 +105,115 @@ def check(ctx):
     # or a substitute (shared with C06.R1 / C05.R5)
     from .c06 import _r1 as assignment_rule
     ctx.absorb(assignment_rule, "R7")
+    _r7_own_expression(ctx, pkg)
+
+
+TL = "naunet/templateloader.py"
+
+
+def _r7_own_expression(ctx, pkg):
+    """Positive half of R7: a list that feeds the `k[i] = ...` statements (rate expressions, guards) is not overwritten element-wise
+    with anything but reaction i's own rateexpr().  (The shape of the statements themselves is the absorbed rule.)"""
+    from ..valueflow import Flow, simp, show, walk
+    fn = pkg.method("TemplateLoader", "_assign_rates")
+    fl = Flow(fn, TL, resolver=lambda name: pkg.resolve("TemplateLoader", name)[1] if name.startswith("_") and not name.startswith("__") else None)
+    rets = [simp(f.value) for f in fl.facts if f.kind == "return" and f.value is not None]
+    returned = {r[1] for r in rets if r[0] == "acc"}
+    feeding = set()
+    for part in rets + [x for f in fl.facts if f.target in returned for x in ([simp(f.value)] if f.value is not None else []) + [simp(l.iter) for l in f.loops]]:
+        feeding |= {x[1] for x in walk(part) if isinstance(x, tuple) and len(x) == 2 and x[0] == "acc"}
+    feeding -= returned
+    R = ("param", "reactions")
+    n = 0
+    for f in fl.facts:
+        if f.kind in ("store", "augstore") and f.target in feeding:
+            n += 1
+            v, i = simp(f.value), simp(f.index) if f.index is not None else None
+            own = f.kind == "store" and v[0] == "meth" and v[2] == "rateexpr" and v[1][0] == "elem" and v[1][1] == R and i == ("idx", R, v[1][2])
+            ctx.check(own, "R7", f"_assign_rates:{f.target}[..] overwritten", (TL, f.line),
+                      f"`{f.target}[i]` is assigned reaction i's own rateexpr()" if own else
+                      f"element `{f.target}[{show(i)[:30]}]` of a list the statements are built from is overwritten with {show(v)[:60]}: the statement of that reaction no longer "
+                      "carries the translation of its own rate string (a copied coefficient is read before it is assigned, or outside its own temperature window)",
+                      expected="statement i carries reactions[i].rateexpr(..)", found=show(v)[:100])
+    ctx.stats["assign_rates_element_writes"] = n
+    # ... and no text-rewriting operation stands between reac.rateexpr(..) and the statement it is pasted into: the value may be
+    # named, zipped, enumerated, selected by if/else and formatted into the statement, nothing else
+    def mod_helper(name):
+        if (TL, name) in pkg.functions:
+            return pkg.functions[(TL, name)]
+        cands = [f_ for (_, n_), f_ in pkg.functions.items() if n_ == name]
+        return cands[0] if len(cands) == 1 else None
+    fl2 = Flow(fn, TL, resolver=lambda name: pkg.resolve("TemplateLoader", name)[1] if name.startswith("_") and not name.startswith("__") else None,
+               func_resolver=mod_helper)
+    REWRITERS = {"sub", "subn", "replace", "translate", "strip", "lstrip", "rstrip", "lower", "upper", "format", "removeprefix", "removesuffix", "expandtabs"}
+    hits = []
+
+    def is_rate(x, bound):
+        if x in bound:
+            return True
+        if x[0] == "meth" and x[2] == "rateexpr":
+            return True
+        if x[0] in ("phi", "ifexp"):
+            return is_rate(x[2], bound) and is_rate(x[3], bound)
+        return False
+
+    def rate_seq(x, bound):
+        if x[0] in ("phi", "ifexp"):
+            return rate_seq(x[2], bound) and rate_seq(x[3], bound)
+        if x[0] == "copy":
+            return rate_seq(x[1], bound)
+        return x[0] == "comp" and x[1] == "list" and is_rate(x[2], bound | gens_bound(x[3], bound))
+
+    def gens_bound(gens, bound):
+        new = set()
+        for tg, it, ifs in gens:
+            if tg is None:
+                continue
+            if rate_seq(it, bound | new) and tg[0] == "bv":
+                new.add(tg)
+            z = it[2][0] if it[0] == "call" and it[1] == ("global", "enumerate") and it[2] else it
+            t2 = tg[1][1] if it is not z and tg[0] == "tuple" and len(tg[1]) == 2 else tg
+            if z[0] == "call" and z[1] == ("global", "zip") and t2[0] == "tuple" and len(t2[1]) == len(z[2]):
+                for a, b_ in zip(z[2], t2[1]):
+                    if b_[0] == "bv" and rate_seq(a, bound | new):
+                        new.add(b_)
+        return new
+
+    def visit(x, bound):
+        if not isinstance(x, tuple) or not x:
+            return
+        k = x[0]
+        if k == "comp":
+            b2 = bound | gens_bound(x[3], bound)
+            for tg, it, ifs in x[3]:
+                visit(it, bound)
+                for c in ifs:
+                    visit(c, b2)
+            visit(x[2], b2)
+            return
+        if k == "meth" and x[2] in REWRITERS and (is_rate(x[1], bound) or any(is_rate(a, bound) for a in x[3])):
+            hits.append(x)
+        elif k == "call" and x[1][0] == "attr" and x[1][1] == ("global", "re") and x[1][2] in ("sub", "subn") and any(is_rate(a, bound) for a in x[2]):
+            hits.append(x)
+        elif k in ("sub", "slice") and is_rate(x[1], bound):
+            hits.append(x)
+        for y in x[1:]:
+            if isinstance(y, tuple):
+                for z in (y if y and isinstance(y[0], tuple) else (y,)):
+                    visit(z, bound)
+    for f in fl2.facts:
+        for part in ([f.value] if f.value is not None else []) + [l.iter for l in f.loops]:
+            visit(simp(part), frozenset())
+    seen = set()
+    for h in hits:
+        if h in seen:
+            continue
+        seen.add(h)
+        ctx.bad("R7", f"_assign_rates:rate text rewritten:{show(h)[:60]}", (TL, fn.lineno),
+                f"the text returned by rateexpr() is rewritten ({show(h)[:90]}) before it is pasted into the statement: the statement does not carry the translation of the "
+                "reaction's rate string but a text derived from it by string surgery", expected="k[i] = <reactions[i].rateexpr(..)>;", found=show(h)[:160])
+    if not hits:
+        ctx.ok("R7", "_assign_rates:rate text pasted as returned", (TL, fn.lineno), "no rewriting operation is applied to the text rateexpr() returns")
 
 
 def _r6(ctx, pkg, ci):
@@ -182,6 +320,115 @@ def _callbacks(cls_node):
     return out
 
 
+def _callback_returns(ci, cls_name, name):
+    """IR (sa.valueflow) of every value the transformer class `cls_name` (callbacks inherited through its bases) returns for
+    callback `name`, as a function of the children parameter; private helper methods of the transformer classes are inlined.
+    -> (callback node | None, children parameter name | None, [IR, ...])"""
+    from ..valueflow import Flow, simp
+    order = []
+    todo = [cls_name]
+    while todo:
+        c = todo.pop(0)
+        if c in order or c not in ci.nested:
+            continue
+        order.append(c)
+        todo.extend(ast.unparse(b).split(".")[-1] for b in ci.nested[c].bases)
+    cb = None
+    for c in order:
+        cbs = _callbacks(ci.nested[c])
+        if name in cbs:
+            cb = cbs[name]
+            break
+    if cb is None:
+        return None, None, []
+    if isinstance(cb, ast.Lambda):
+        fn = ast.FunctionDef(name=name, args=cb.args, body=[ast.Return(value=cb.body)], decorator_list=[], returns=None, type_comment=None)
+        fn.type_params = []
+        ast.fix_missing_locations(ast.copy_location(fn, cb))
+    elif isinstance(cb, ast.FunctionDef):
+        fn = cb
+    else:
+        return cb, None, []
+    arg = fn.args.args[1].arg if len(fn.args.args) > 1 else None
+
+    def resolver(n):
+        for c in order:
+            for st in ci.nested[c].body:
+                if isinstance(st, ast.FunctionDef) and st.name == n and st is not fn:
+                    return st
+        return None
+    fl = Flow(fn, CF, resolver=resolver)
+    return cb, arg, [simp(f.value) for f in fl.facts if f.kind == "return" and f.value is not None]
+
+
+def _decompose(v, arg):
+    """`prefix + sep.join(children).replace(a1, b1)...replace(an, bn) + suffix`  ->  (prefix, sep, [(a1, b1), ...], suffix); None when
+    the value is not of that shape (whatever the spelling: f-string, +, format, chained or stepwise replace, a joining helper)."""
+    pre = post = ""
+    if v[0] == "fstr":
+        parts = list(v[1])
+        if parts and parts[0][0] == "const":
+            pre = parts.pop(0)[1]
+        if parts and parts[-1][0] == "const":
+            post = parts.pop()[1]
+        if len(parts) != 1 or parts[0][0] != "fmt" or parts[0][2] is not None or parts[0][3] != -1:
+            return None
+        v = parts[0][1]
+    reps = []
+    while v[0] == "meth" and v[2] == "replace" and len(v[3]) == 2 and not v[4] and all(a[0] == "const" and isinstance(a[1], str) for a in v[3]):
+        reps.insert(0, (v[3][0][1], v[3][1][1]))
+        v = v[1]
+    if v[0] == "join" and v[1][0] == "const" and isinstance(v[1][1], str) and v[2] == ("param", arg):
+        return pre, v[1][1], reps, post
+    return None
+
+
+def _selects_children(v, arg):
+    """does the value pick / re-order individual children (children[i], children[a:b], reversed(children))?"""
+    from ..valueflow import walk
+    for x in walk(v):
+        if isinstance(x, tuple) and len(x) >= 2 and x[0] in ("item", "sub", "slice") and x[1] == ("param", arg):
+            return True
+        if isinstance(x, tuple) and x[0] == "call" and x[1] in (("global", "reversed"), ("global", "sorted")) and x[2] and x[2][0] == ("param", arg):
+            return True
+    return False
+
+
+def _callback_is(ctx, ci, name, want, key, good, wrong):
+    """The C callback `name` returns, on every path, prefix + sep.join(children) + replacements + suffix as `want` says
+    (want = (prefix, sep, replacements as a set, suffix))."""
+    from ..valueflow import show
+    cb, arg, rets = _callback_returns(ci, "CExpression", name)
+    where = (CF, getattr(cb, "lineno", 0))
+    src = " ".join(ast.unparse(cb).split())[:140] if cb is not None else "missing"
+    if cb is None:
+        ctx.bad("R2", key, where, wrong, expected=_want_text(want), found="missing")
+        return
+    if not rets:
+        ctx.unrec("R2", key, where, f"cannot reconstruct what the callback `{name}` returns: {src}")
+        return
+    verdicts = []
+    for v in rets:
+        d = _decompose(v, arg)
+        if d is not None:
+            verdicts.append("ok" if (d[0], d[1], frozenset(d[2]), d[3]) == (want[0], want[1], frozenset(want[2]), want[3]) and len(d[2]) == len(want[2]) else "wrong")
+        elif _selects_children(v, arg) or v[0] == "const":
+            verdicts.append("wrong")
+        else:
+            verdicts.append("unknown")
+    if "wrong" in verdicts:
+        ctx.bad("R2", key, where, wrong, expected=_want_text(want), found=src)
+    elif "unknown" in verdicts:
+        ctx.unrec("R2", key, where, f"the value returned by `{name}` is not recognised as a concatenation of its children: " + "; ".join(show(v)[:80] for v in rets))
+    else:
+        ctx.ok("R2", key, where, good)
+
+
+def _want_text(want):
+    pre, sep, reps, post = want
+    return (f"{pre!r} + " if pre else "") + f"{sep!r}.join(children)" + "".join(f".replace({a!r}, {b!r})" for a, b in reps) + (f" + {post!r}" if post else "")
+
+
 def _children_used(cb):
     """Which children of its argument a callback returns: -> (set of constant indexes, form)
     form: 'single' ((x,) = x; return x.value -- exactly one child or an error), 'join' (all joined), 'indexed', 'unrecognised'"""
@@ -234,15 +481,11 @@ def _r2(ctx, pkg, ci, gr):
             n += 1
             ctx.check(r in tr[other], "R2", f"{gname}:{r} has a {other} callback", (CF, 0), f"rule `{r}` of {gname} is handled by the {other} transformer")
     ctx.floor("R2", "grammar rules", n, 16)
-    # purity of the shared callbacks as seen by the C transformer
+    # purity of the shared callbacks as seen by the C transformer (decided on the value the callback returns, not on its spelling)
     for name, sep in PURE_JOIN_OK.items():
-        cb = tr["c"].get(name)
-        ok = isinstance(cb, ast.Lambda) and " ".join(ast.unparse(cb.body).split()) in (f"{sep.replace(chr(34), chr(39))}.join({cb.args.args[1].arg})",)
-        ctx.check(ok, "R2", f"CExpression.{name} is a pure join", (CF, getattr(cb, "lineno", 0)),
-                  f"`{name}` concatenates all of its children in order" if ok else
-                  f"the C callback `{name}` is not the plain concatenation of its children: tokens (e.g. parentheses) can be dropped or re-ordered, changing the value of the expression "
-                  "(x/(a/b) -> x/a/b)",
-                  expected=f"lambda self, x: {sep}.join(x)", found=" ".join(ast.unparse(cb).split())[:120] if cb is not None else "missing")
+        _callback_is(ctx, ci, name, ("", ast.literal_eval(sep), [], ""), f"CExpression.{name} is a pure join", f"`{name}` concatenates all of its children in order",
+                     f"the C callback `{name}` is not the plain concatenation of its children: tokens (e.g. parentheses) can be dropped or re-ordered, changing the value of the expression "
+                     "(x/(a/b) -> x/a/b)")
     # number literals: the callback must hand over every token of the literal, and every exponent letter the grammar
     # accepts must be one C understands (the callbacks copy the letter)
     for gname, other in (("fgrammar", "c"), ("cgrammar", "fortran")):
@@ -279,31 +522,67 @@ def _r2(ctx, pkg, ci, gr):
             bad = sorted(x for x in letters if x not in ("e", "E"))
             ctx.check(not bad, "R2", f"{gname}:exponent letters", (CF, 0), "the exponent letters of the grammar are C's (e/E)" if not bad else
                       f"the grammar accepts the exponent letter(s) {bad}, which no callback turns into C's `e`", expected="['E', 'e']", found=str(sorted(letters)))
-    cp = tr["c"].get("power")
-    src = ast.unparse(cp) if cp is not None else ""
-    ctx.check("pow(" in src and "replace('**', ', ')" in src, "R2", "CExpression.power", (CF, getattr(cp, "lineno", 0)), "a**b becomes pow(a, b): no `**` survives in C output", found=src[:100])
-    lv = tr["c"].get("listvar")
-    src = ast.unparse(lv) if lv is not None else ""
-    ctx.check(all(x in src for x in ("replace('(', '[')", "replace(')', ']')", "replace('n', 'y')")), "R2", "CExpression.listvar", (CF, getattr(lv, "lineno", 0)),
-              "n(idx_X) becomes y[IDX_X]", found=src[:120])
-    ix = tr["c"].get("index")
-    src = ast.unparse(ix) if ix is not None else ""
-    ctx.check("IDX" in src and "join" in src, "R2", "CExpression.index", (CF, getattr(ix, "lineno", 0)), "idx_X becomes IDX_X", found=src[:80])
+    _callback_is(ctx, ci, "power", ("pow(", "", [("**", ", ")], ")"), "CExpression.power", "a**b becomes pow(a, b): no `**` survives in C output",
+                 "the C callback `power` does not turn `a**b` into pow(a, b): `**` (not a C operator) survives or the operands are altered")
+    # the three single-character replacements do not feed each other ( '(' ')' 'n' are not produced by any of them ): any order
+    _callback_is(ctx, ci, "listvar", ("", "", [("(", "["), (")", "]"), ("n", "y")], ""), "CExpression.listvar", "n(idx_X) becomes y[IDX_X]",
+                 "the C callback `listvar` does not turn n(idx_X) into y[IDX_X]")
+    _callback_is(ctx, ci, "index", ("IDX", "", [], ""), "CExpression.index", "idx_X becomes IDX_X", "the C callback `index` does not turn idx_X into IDX_X")
+
+
+def _prepass(ctx, pkg, fn):
+    """The text handed to the Fortran parser, as a pipeline over self.rate_string, read off the reconstructed value (sa.valueflow;
+    module-level helper functions inlined, rewrite tables unrolled) -- whatever the spelling: re.sub(p, r, s), re.compile(p).sub(r, s),
+    chained or stepwise, in the method or in a helper.
+    -> (converter IR | None, [(pattern | None, replacement | None, line)], [(old, new, line)], problem | None)"""
+    from ..valueflow import Flow, simp, show
+    SELF = ("param", "self")
+    mod = pkg.modules[KR]
+
+    def line_of(text, default):
+        for n in ast.walk(mod):
+            if isinstance(n, ast.Constant) and n.value == text:
+                return n.lineno
+        return default
+
+    def cls_helper(name):
+        return pkg.resolve("KROMEReaction", name)[1] if name.startswith("_") and not name.startswith("__") else None
+    fl = Flow(fn, KR, resolver=cls_helper, func_resolver=lambda name: pkg.functions.get((KR, name)))
+    reads = [f for f in fl.facts if f.kind == "call" and f.value is not None and simp(f.value)[0] == "meth" and simp(f.value)[2] == "read" and len(simp(f.value)[3]) == 1]
+    if len(reads) != 1:
+        return None, [], [], f"expected one <converter>.read(text) call, found {len(reads)}"
+    rd = simp(reads[0].value)
+    conv, x = rd[1], rd[3][0]
+    subs, repl = [], []
+    is_re = lambda o: o in (("global", "re"),)
+    for _ in range(40):
+        if x == ("attr", SELF, "rate_string"):
+            return conv, list(reversed(subs)), list(reversed(repl)), None
+        const = lambda a: a[1] if a[0] == "const" and isinstance(a[1], str) else None
+        if x[0] == "meth" and x[2] == "sub" and is_re(x[1]) and len(x[3]) == 3 and not x[4]:
+            pat, rep = const(x[3][0]), const(x[3][1])
+            subs.append((pat, rep, line_of(pat, reads[0].line)))
+            x = x[3][2]
+        elif x[0] == "meth" and x[2] == "sub" and x[1][0] == "meth" and is_re(x[1][1]) and x[1][2] == "compile" and len(x[1][3]) == 1 and not x[1][4] and len(x[3]) == 2 and not x[4]:
+            pat, rep = const(x[1][3][0]), const(x[3][0])
+            subs.append((pat, rep, line_of(pat, reads[0].line)))
+            x = x[3][1]
+        elif x[0] == "meth" and x[2] == "replace" and len(x[3]) == 2 and not x[4] and const(x[3][0]) is not None and const(x[3][1]) is not None:
+            repl.append((const(x[3][0]), const(x[3][1]), reads[0].line))
+            x = x[1]
+        else:
+            break
+    return conv, list(reversed(subs)), list(reversed(repl)), f"the parsed text is not a chain of re.sub / str.replace over self.rate_string: {show(x)[:100]}"
 
 
 def _r3(ctx, pkg):
     import re._parser as sp
     fn = pkg.method("KROMEReaction", "rateexpr")
     ctx.saw(KR, "KROMEReaction.rateexpr")
-    subs = []
-    repl = []
-    for c in ast.walk(fn):
-        if isinstance(c, ast.Call):
-            f = ast.unparse(c.func)
-            if f == "re.sub" and len(c.args) >= 3:
-                subs.append((c.args[0].value if isinstance(c.args[0], ast.Constant) else None, c.args[1].value if isinstance(c.args[1], ast.Constant) else None, c.lineno))
-            elif f.endswith(".replace") and len(c.args) == 2 and all(isinstance(a, ast.Constant) for a in c.args):
-                repl.append((c.args[0].value, c.args[1].value, c.lineno))
+    conv, subs, repl, problem = _prepass(ctx, pkg, fn)
+    if problem:
+        ctx.unrec("R3", "pre-pass", (KR, fn.lineno), problem)
+        return
     ctx.floor("R3", "regex rewritings", len(subs), 4, (KR, fn.lineno))
     seen_d = 0
     for pat, rep, line in subs:
@@ -350,13 +629,21 @@ def _r3(ctx, pkg):
     ctx.check(seen_d == 1, "R3", "d-exponent rewriting present once", (KR, fn.lineno), "Fortran d-exponents are converted exactly once", found=str(seen_d))
     ok_rep = sorted((a, b) for a, b, _ in repl) == [("Hnuclei", "nH")]
     ctx.check(ok_rep, "R3", "literal replacements", (KR, fn.lineno), "the only literal replacement is Hnuclei -> nH (the registered density symbol)", found=str([(a, b) for a, b, _ in repl]))
-    # the converted text is what is returned
-    src = ast.unparse(fn)
-    ctx.check(re.search(r"self\._kromerateconverter\.read\(\w+\)", src) is not None and "f'{self._kromerateconverter:c}'" in src, "R3", "conversion", (KR, fn.lineno),
-              "the rewritten text is parsed with the Fortran grammar and printed with the C transformer (unparsable text raises)")
+    # the converted text is what is returned: the value is the converter that read the text, printed with the C transformer
+    from ..valueflow import Flow, simp
+    rets = [simp(f.value) for f in Flow(fn, KR).facts if f.kind == "return" and f.value is not None]
+    printed = [r for r in rets if r[0] == "fstr" and len(r[1]) == 1 and r[1][0][0] == "fmt" and r[1][0][2] == "c"]      # f"{x:c}" == format(x, "c")
+    ok_conv = len(rets) == 1 and len(printed) == 1 and printed[0][1][0][1] == conv
+    if ok_conv or (len(rets) == 1 and printed):
+        ctx.check(ok_conv, "R3", "conversion", (KR, fn.lineno),
+                  "the rewritten text is parsed with the Fortran grammar and printed with the C transformer (unparsable text raises)" if ok_conv else
+                  "the converter that is printed is not the one that read the rewritten text")
+    else:
+        ctx.unrec("R3", "conversion", (KR, fn.lineno), "cannot see that rateexpr returns the C rendering (format spec 'c') of the converter that read the text")
 
 
 MUTANTS = [
+    {"name": "rate-text-post-processed", "file": "naunet/templateloader.py", "old": "        rateassign = [\n", "new": "        rateexprs = [rx.replace(\"pow(\", \"powf(\") for rx in rateexprs]\n        rateassign = [\n", "rules": ["R7"]},
     {"name": "repeated-expression-copied", "file": "naunet/templateloader.py", "old": "        rateassign = [\n", "new": "        first_use = {}\n        for ridx, rx in enumerate(rateexprs):\n            prev = first_use.setdefault(rx, ridx)\n            if prev != ridx:\n                rateexprs[ridx] = f\"{rate_sym}[{prev}]\"\n        rateassign = [\n", "rules": ["R7"]},
     {"name": "lark-lalr", "file": CF, "old": 'self._parser = Lark(grammar, start="expression")', "new": 'self._parser = Lark(grammar, start="expression", parser="lalr")', "rules": ["R6"]},
     {"name": "krome-rateexpr-lru-cache", "file": KR, "old": "    def rateexpr(self, grain: Grain = None) -> str:", "new": "    @__import__('functools').lru_cache(maxsize=None)\n    def rateexpr(self, grain: Grain = None) -> str:", "rules": ["R5"]},
@@ -373,5 +660,15 @@ MUTANTS = [
     {"name": "listvar-keeps-parentheses", "file": CF, "old": '            .replace("(", "[")\n            .replace(")", "]")\n            .replace("n", "y")', "new": '            .replace("n", "y")', "rules": ["R2"]},
 ]
 BENIGN = [
+    {"name": "grammar-assembled-from-fragments", "file": CF, "old": '    fgrammar = r"""\n        expression: multiply ((PLUS | MINUS) multiply)*\n',
+     "new": '    _sum_rule = r"""\n        expression: multiply ((PLUS | MINUS) multiply)*\n"""\n    fgrammar = _sum_rule + r"""'},
+    {"name": "prepass-compiled-pattern-and-chained-replace", "file": KR,
+     "old": '        rate = re.sub(r"(idx_.?)\\)", r"\\1I)", rate)\n        rate = rate.replace("Hnuclei", "nH")\n        self._kromerateconverter.read(rate)\n',
+     "new": '        closing = re.compile(r"(idx_.?)\\)")\n        conv = self._kromerateconverter\n        conv.read(closing.sub(r"\\1I)", rate).replace("Hnuclei", "nH"))\n'},
+    {"name": "c-power-by-concatenation-and-helper", "edits": [
+        {"file": CF, "old": "        power = lambda self, p: f\"pow({''.join(p).replace('**', ', ')})\"\n", "new": "        def power(self, parts):\n            arguments = self._glue(parts).replace(\"**\", \", \")\n            return \"pow(\" + arguments + \")\"\n"},
+        {"file": CF, "old": "    class Expression(Transformer):\n", "new": "    class Expression(Transformer):\n        @staticmethod\n        def _glue(children):\n            return \"\".join(children)\n\n"}]},
+    {"name": "c-listvar-stepwise-other-order", "file": CF, "old": '            .replace("(", "[")\n            .replace(")", "]")\n            .replace("n", "y")', "new": '            .replace("n", "y")\n            .replace(")", "]")\n            .replace("(", "[")'},
+    {"name": "atom-as-def", "file": CF, "old": '        atom = lambda self, a: "".join(a)', "new": '        def atom(self, parts):\n            text = "".join(parts)\n            return text'},
     {"name": "callback-arg-renamed", "file": CF, "old": '        atom = lambda self, a: "".join(a)', "new": '        atom = lambda self, parts: "".join(parts)'},
 ]
